@@ -18,7 +18,7 @@ struct Obj : ObjectHeaderBase {
     ~Obj() override { g_dtor[serial & 15]++; }
 };
 
-static int CAP, N;
+static int CAP, N, POSTREL;
 static std::string THIRD;
 static ObjectQueue<ObjectHeaderBase> * g_q;
 static bool g_aborted;
@@ -55,7 +55,8 @@ static std::string body() {
                 size_t left = q.m_queue.size();   /* no scheduling point since read() decided */
                 bool consumed = q.m_tellg >= q.m_fileSize;
                 bool ab = q.m_abort;
-                if (left != 0) err = "null result while " + std::to_string(left) + " objects remain";
+                if (POSTREL) { /* other threads may have run since read() decided: the snapshot is not exact */ }
+                else if (left != 0) err = "null result while " + std::to_string(left) + " objects remain";
                 else if (!consumed && !ab) err = "null result although neither the declared size was consumed nor abort() called";
                 else if (!q.eof() || q.good()) err = "null result but eof()/good() do not report end of stream";
                 obs += "E";
@@ -94,6 +95,7 @@ static int run_config(const vx::Args & args) {
     opt.bound = 2;
     opt.horizon = 20000;
     args.apply(opt);
+    POSTREL = opt.post_release;
     opt.on_point = on_point;
     return vx::supervise("queue", args, opt, [&](vx::Explorer & ex) {
         ex.body = body;
